@@ -191,6 +191,7 @@ class SimKernel(object):
         self.getpid_value = DAEMON_PID
         self.io_pending = 0           # writer plans still to write
         self.pending_marker = None
+        self.spin_broken = False      # after a recorded hang: waitpid gives up
 
     # ------------------------------------------------------------ process api
     def _new_pid(self):
@@ -381,7 +382,7 @@ class SimKernel(object):
         sim = self.sim
         sim.boundary('waitpid')
         me = self.getpid_value
-        if pid in self.break_spin:
+        if self.spin_broken or pid in self.break_spin:
             raise ChildProcessError(errno.ECHILD, 'No child processes')
         if pid == -1:
             zs = [p for p in self.procs.values()
